@@ -388,3 +388,34 @@ def import_repo():
         raise RuntimeError(f"opticomlib imported from {f}, expected under {REPO}")
     # the library's db() installs a global "ignore RuntimeWarning" filter; harmless here
     return opticomlib
+
+
+def run_repo_tests(ctx):
+    """Run $RV_REPO/tests in a pytest subprocess with this property's monitors armed (rv.pytest_plugin); fold what they saw into ctx.
+    A monitor that fires there is either stricter than what the library's own callers do, or a defect the tests do not assert."""
+    import subprocess
+    import tempfile
+    out = tempfile.NamedTemporaryFile(prefix="rvtests_", suffix=".json", delete=False).name
+    env = dict(os.environ, RV_PROP=ctx.prop, RV_OUT=out, MPLBACKEND="Agg", PYTHONPATH=os.pathsep.join([ROOT, os.path.join(ROOT, ".deps"), REPO]))
+    try:
+        r = subprocess.run([sys.executable, "-m", "pytest", "-q", "-x", "-p", "no:cacheprovider", "-p", "rv.pytest_plugin", os.path.join(REPO, "tests")], cwd=REPO, env=env,
+                           capture_output=True, text=True, timeout=1800)
+        data = json.load(open(out))
+    except Exception as e:
+        ctx.inconclusive.append({"reason": f"repository tests under monitors could not run: {e!r}"[:300]})
+        return
+    finally:
+        if os.path.exists(out):
+            os.remove(out)
+    n = 0
+    for m, c in data["counters"].items():
+        for k, v in c.items():
+            ctx.counters[m][k] += v
+        n += c.get("checks", 0)
+    for v in data["violations"]:
+        ctx.violations.append(v)
+    for k, v in data["viol_count"].items():
+        ctx.viol_count[k] += v
+    ctx.check("repo_tests.ran", data["tests"] >= 40 and n > 0, f"repository tests under monitors: {data['tests']} tests collected, {n} monitor evaluations (pytest exit {data['pytest_exit']})")
+    ctx.evaluations += data["tests"]
+    ctx.case(("repo_tests",), sample={"tests": data["tests"], "monitor_evaluations_during_tests": n, "pytest_exit": data["pytest_exit"]})
